@@ -24,14 +24,20 @@ VARIANTS = {
     'Anp': ("{'generate_for_pack': False}", "x = Int(2)\n    y = Int(2)"),
     'Aoff': ("{'generate_for_pack': False, 'generate_for_unpack': False}", "x = Int(2)\n    y = Int(2)"),
     'Ana': ("{'annotate': False}", "x = Int(2)\n    y = Int(2)"),
+    # same field lines, names, sizes and options: only the descriptor of the described field (and so its hooks) differs
+    'Dal': ("{}", "length = Int(1).describe(AutoLength('a'))\n    a = Data(length)", "from bisturi.descriptor import AutoLength\n"),
+    'Dfx': ("{}", "length = Int(1).describe(AutoLength('a'))\n    a = Data(length)",
+            "class AutoLength(object):\n    def __init__(self, name):\n        pass\n    def __get__(self, inst, owner):\n        return self if inst is None else 0\n"
+            "    def __set__(self, inst, v):\n        pass\n"),
 }
 RAW = bytes([1, 2, 3, 4, 2, 65, 66, 7, 8])
 FORGED = 1_600_000_000
 
 
 def source(variant, clsname='P'):
-    conf, body = VARIANTS[variant]
-    return ("from bisturi.packet import Packet\nfrom bisturi.field import Int, Data\n"
+    conf, body = VARIANTS[variant][:2]
+    prelude = VARIANTS[variant][2] if len(VARIANTS[variant]) > 2 else ''
+    return ("from bisturi.packet import Packet\nfrom bisturi.field import Int, Data\n" + prelude +
             f"class {clsname}(Packet):\n    __bisturi__ = {conf}\n    {body}\n")
 
 
@@ -45,6 +51,8 @@ def behaviour(cls):
         out['end'] = end
         out['packed'] = p.pack().hex()
         out['default'] = cls().pack().hex()
+        if any(n == 'a' for n, _, _, _ in cls.get_fields()):
+            out['built'] = cls(a=b'abc').pack().hex()
     except Exception as e:
         out['exc'] = type(e).__name__ + ': ' + str(e)[:100]
     return out
@@ -161,10 +169,11 @@ def define(d, variant, k):
 
 def reference(d, variant, k):
     """the same declaration under another class and module name, with code generation off: no cache involved"""
-    conf, body = VARIANTS[variant]
+    conf, body = VARIANTS[variant][:2]
+    prelude = VARIANTS[variant][2] if len(VARIANTS[variant]) > 2 else ''
     path = os.path.join(d, 'ref_%s_%d.py' % (variant, os.getpid()))
     with builtins.open(path, 'w') as f:
-        f.write("from bisturi.packet import Packet\nfrom bisturi.field import Int, Data\n"
+        f.write("from bisturi.packet import Packet\nfrom bisturi.field import Int, Data\n" + prelude +
                 f"class R(Packet):\n    __bisturi__ = dict({conf}, generate_for_pack=False, generate_for_unpack=False)\n    {body}\n")
     spec = importlib.util.spec_from_file_location('ref_%s' % variant, path)
     mod = importlib.util.module_from_spec(spec)
